@@ -102,6 +102,14 @@ def gen_heading(rng, doc, level=None, force_servings=None):
         title = title + rng.choice([" ", "  "]) + phrase + rng.choice([" ", "  "]) + (str(n) if rng.random() < 0.9 else "0" + str(n))
     if level <= 2 and rng.random() < 0.25:
         lines = [title, ("=" if level == 1 else "-") * max(3, len(title))]
+        # (wrapped inside the title words only: the serving phrase and its count stay on one line, which is what the differential
+        #  comparison with plain CommonMark knows how to read)
+        base = " ".join(words)
+        cut = [i for i, ch in enumerate(base) if ch == " " and 0 < i < len(base) - 1 and base[i - 1] != " " and base[i + 1] != " "]
+        if cut and rng.random() < 0.5:
+            # a setext heading written over two lines (the title's text has a line break where the author wrapped it)
+            i = rng.choice(cut)
+            lines = [title[:i], title[i + 1:], lines[1]]
     else:
         lines = ["#" * level + " " + title + rng.choice(["", "", " #", "  "])]
     if not doc.first_heading_seen:
